@@ -13,6 +13,7 @@
 From Compio.Model Require Import Base Buf.
 From Compio.Gen Require Frag.
 From Compio.Thm Require Import BufThm FragBufThm.
+From Compio.Thm Require FragIoThm.
 
 (* (a) the contract: for EVERY root kind/length/capacity and EVERY nesting of
    slice / uninit views that is well-constructed, outside the known class: both
@@ -333,3 +334,14 @@ Theorem C10_slice_window_is_source : forall o l b e,
   /\ Frag.slice_end_or_len l e <= l.
 Proof. exact sub_range_tie. Qed.
 Print Assumptions C10_slice_window_is_source.
+
+(* BufferRef::set_capacity (compio-driver/src/buffer_pool.rs) as the source has it now is
+   the model's pool_set_capacity, for every requested capacity (a usize) and every pool
+   buffer whose full length fits the u32 the code stores it in *)
+Theorem C10_pool_set_capacity_is_source : forall n r,
+  rkind r = KPool -> (N.of_nat (length (rcells r)) < 2 ^ 32)%N ->
+  let r' := pool_set_capacity n r in
+  Frag.bufref_set_capacity n (NN (length (rcells r))) (NN (rlim r)) (NN (rlen r))
+  = (NN (rlim r'), NN (rlen r')).
+Proof. exact FragIoThm.pool_set_capacity_tie. Qed.
+Print Assumptions C10_pool_set_capacity_is_source.
